@@ -38,15 +38,22 @@ DEFAULT_SLOTS = {"storages": {"storage_capacity": (1, "TB"), "base_storage_need"
 
 
 def _c10_case(args):
-    tname, spec, slot = args
+    tname, spec, slot = args[:3]
+    given = args[3] if len(args) > 3 else None     # (value in one unit, the same duration in another unit), both written out
     H.deterministic_ids(3)
     sec, n, k = slot
     out = {"topology": tname, "slot": f"{n}.{k}", "status": "ok", "diff": []}
     try:
         s1 = copy.deepcopy(spec)
         if k not in s1[sec][n]: s1[sec][n][k] = DEFAULT_SLOTS[sec][k]
+        if given: s1[sec][n][k] = given[0]
         s2 = copy.deepcopy(s1)
-        alt = reexpress(s1[sec][n][k])
+        alt = given[1] if given else reexpress(s1[sec][n][k])
+        if given:
+            # D21: a whole number of hours written in milliseconds converts to hours with a floating-point residue (7200000 ms -> 2.0000000000000004 h)
+            out["residue"] = bool(given[0][1] == "hour" and given[1][1] == "ms" and float(given[0][0]).is_integer()
+                                  and (given[1][0] * u(given[1][1])).to(u.hour).magnitude != given[0][0])
+            out["slot"] = f"{n}.{k}={given[0][0]} {given[0][1]} as {given[1][0]} {given[1][1]}"
         if alt is None: out["status"] = "skip"; return out
         s2[sec][n][k] = alt
         out["units"] = [s1[sec][n][k][1], alt[1]]
@@ -81,7 +88,25 @@ def run_c10(tier, seed, procs=16):
     items.append(("fixed_on_premise", s, ("servers", "srv0", "fixed_nb_of_instances")))
     s = copy.deepcopy(T["single"]); s["storages"]["st0"]["fixed_nb_of_instances"] = (40, "dimensionless")
     items.append(("fixed_storage", s, ("storages", "st0", "fixed_nb_of_instances")))
+    # durations of a whole number of hours written in milliseconds (the conversion to hours is where ceil / floor are taken)
+    for tname in (("single", "two_servers_repeated_job") if tier == "quick" else tuple(T)):
+        spec = T[tname]
+        for sec, k in (("jobs", "request_duration"), ("steps", "user_time_spent"), ("storages", "data_storage_duration")):
+            for n in list(spec[sec])[:1 if tier == "quick" else 2]:
+                for hrs in (1, 2, 3, 4):
+                    items.append((tname, spec, (sec, n, k), ((hrs, "hour"), (hrs * 3600000, "ms"))))
+                    items.append((tname, spec, (sec, n, k), ((hrs, "hour"), (hrs * 3600, "s"))))      # converts exactly: must agree
+    # small amounts written in a large unit (a bare magnitude compared with a threshold would see "almost nothing")
+    for tname in (("single", "two_servers_repeated_job") if tier == "quick" else tuple(T)):
+        spec = T[tname]
+        for sec, k, big in (("jobs", "request_duration", (5e-7, "ks")), ("steps", "user_time_spent", (3e-7, "year")), ("jobs", "data_transferred", (2e-7, "TB")),
+                            ("jobs", "ram_needed", (4e-7, "TB")), ("storages", "data_storage_duration", (8e-4, "year"))):
+            for n in list(spec[sec])[:1 if tier == "quick" else 2]:
+                small_unit = {"ks": "ms", "year": "s", "TB": "kB"}[big[1]]
+                items.append((tname, spec, (sec, n, k), (big, (float((big[0] * u(big[1])).to(u(small_unit)).magnitude), small_unit))))
     res = H.run_parallel(_c10_case, items, procs)
+    for r in res:
+        if r.get("residue") and r["status"] in ("differs", "raises-only-in-other-unit"): r["status"] = "D21"
     return _report("C10", res, lambda r: f"{r['topology']}|{r['slot']}", "one case = (topology, one quantity input re-expressed in another unit of the same dimension); "
                    "both systems built from scratch, every calculated attribute compared on physical values (rel 1e-9)",
                    f"{len(T)} topologies x every quantity input (quick: half of them), one alternative unit each")
@@ -178,6 +203,25 @@ def _c12_case(args):
             want = scale_view(va, kf ** e)
             if not H.view_equal(want, sb[k_], rel=1e-9): out["diff"].append(f"{k_[0]}.{k_[1]}(expected x{kf}^{e})")
             if live_snap is not None and not H.view_equal(want, live_snap[k_], rel=1e-9): out["diff"].append(f"{k_[0]}.{k_[1]}(after a live edit: expected x{kf}^{e})")
+        if sec == "countries":
+            # networks carry one term per usage pattern, each with the intensity of ITS OWN country object: scaling one country's intensity by k
+            # adds (k - 1) x the terms of the usage patterns of that country, and nothing else (names and short names are labels)
+            from . import inv as INV
+            raw_ = lambda x: getattr(x, "_value", x)
+            cobj = raw_(a[n]); add_ = {}
+            for up in a.system.usage_patterns:
+                if raw_(up.country) is not cobj: continue
+                tr = {}
+                for job in INV.jobs_of_up(up):
+                    ent = [v for k2, v in job.hourly_data_transferred_per_usage_pattern.items() if raw_(k2) is raw_(up)]
+                    if ent: tr = INV.add(tr, INV.series(ent[0]))
+                net = raw_(up.network); hk_ = a.system_handles[id(net)]
+                add_[hk_] = INV.add(add_.get(hk_, {}), INV.scale(tr, INV.phys(net.bandwidth_energy_intensity) * INV.phys(cobj.average_carbon_intensity) * (kf - 1)))
+            for hk_, inc in add_.items():
+                want_ = INV.add(INV.series(raw_(a[hk_]).energy_footprint), inc)
+                if not INV.series_equal(INV.series(raw_(b[hk_]).energy_footprint), want_): out["diff"].append(f"{hk_}.energy_footprint(expected + (k-1) x the share of the usage patterns of {n})")
+                if live_snap is not None and not INV.series_equal(INV.series(raw_(c[hk_]).energy_footprint), want_):
+                    out["diff"].append(f"{hk_}.energy_footprint(after a live edit: expected + (k-1) x the share of the usage patterns of {n})")
         if out["diff"]: out["status"] = "differs"
     except Exception:
         out["status"] = "harness-error"; out["error"] = traceback.format_exc()[-600:]
@@ -243,6 +287,15 @@ def _c18_case(args):
                 eds = H.numeric_edits(spec)
                 eds[k_edit].live(b); out["slot"] += f"|after simulation[{cname}] then {eds[k_edit].name}"
                 idx = None
+            if isinstance(idx, tuple) and idx and idx[0] == "grouped":
+                # ONE ModelingUpdate carrying an object-link change and a list change (either order), then the second pass
+                eds = H.numeric_edits(spec) + H.link_edits(spec)
+                chosen = [eds[k_] for k_ in idx[1:]]
+                s2 = copy.deepcopy(spec)
+                for e in chosen: e.spec(s2)
+                if H.has_shared_job(s2) and not H.has_shared_job(spec): out["status"] = "skip"; return out     # the update itself creates the D1 configuration
+                H.ModelingUpdate([e.change(b) for e in chosen]); out["slot"] += "|after ONE update [" + " ; ".join(e.name for e in chosen) + "]"
+                idx = None
             if idx is not None:
                 eds = H.numeric_edits(spec) + H.link_edits(spec)
                 for k_ in (idx if isinstance(idx, tuple) else (idx,)):
@@ -302,6 +355,12 @@ def run_c18(tier, seed, procs=16):
         allp = [(i, j) for i in range(nn) for j in range(nn) if i != j]
         for p_ in (allp if tier == "thorough" and tname in ("single", "two_independent_chains") else rnd.sample(allp, min(len(allp), 40 if tier == "quick" else 150))):
             items.append((tname, spec, p_, "full-pass"))
+        eds_ = H.numeric_edits(spec) + H.link_edits(spec)
+        objl = [i for i, e in enumerate(eds_) if e.change and "->" in e.name]
+        lstl = [i for i, e in enumerate(eds_) if e.change and ".jobs=[" in e.name]
+        gp = [(a, b_) for a in objl for b_ in lstl] + [(b_, a) for a in objl for b_ in lstl]
+        for a, b_ in (gp if tier == "thorough" else rnd.sample(gp, min(len(gp), 12))):
+            items.append((tname, spec, ("grouped", a, b_), "full-pass"))
         if tname in ("single", "two_independent_chains", "server_shared_by_two_journeys"):
             from . import sim as SIM
             for cname in list(SIM.change_lists(None, spec))[:3]:
@@ -387,6 +446,8 @@ def _report(prop, res, key, rule, bound):
         if r["status"] in ("skip", "raises"): continue
         if r["status"] == "D3":
             viol.append({"signature": "D3", "what": "deletion-free model rejected (float cancellation)", "input": {"case": key(r)}}); continue
+        if r["status"] == "D21":
+            viol.append({"signature": "D21", "what": f"whole hours written in milliseconds are read as one hour more: {key(r)}: {r['diff'][:4]} {r.get('error', '')}", "input": {"case": key(r)}}); continue
         nontrivial.add(key(r))
         if len(samples) < 3: samples.append({"case": key(r), "result": r["status"], "units": r.get("units")})
         if r["status"] != "ok":
